@@ -187,7 +187,7 @@ def build_policy(pol, flags):
     if name == "Scripted":
         from pbt.scripted import ScriptedPlanner
 
-        return ScriptedPlanner(pol["script"], batching=pol.get("batching", False), lookahead=pol.get("lookahead", 0), _flags=flags)
+        return ScriptedPlanner(pol["script"], batching=pol.get("batching", False), lookahead=pol.get("lookahead", 0), retract=pol.get("retract", False), draws=pol.get("draws"), _flags=flags)
     common = dict(
         preemptive=False,
         runtime=rt,
